@@ -18,10 +18,10 @@ for p in ALL:
         "evidence_file": f"/verif/evidence/{p}.json",
         "replay_cmd_template": f"./check {p} --replay {{path}}",
         "engine": "coq-model+correspondence",
-        "level_claimed": {"category": "proof", "text": info.get("text", "Theorems in coq/Props/%s.v over a Gallina model of the library, kernel-checked; model tied to /repo on every run by a differential correspondence evaluated inside Coq." % p),
+        "level_claimed": {"category": "proof", "text": info.get("text", "Theorems in coq/Props/%s.v over a Gallina model of the library, kernel-checked; model tied to /repo on every run by translators (class table, API surface, method skeletons and context managers regenerated from the source) and by a differential correspondence evaluated inside Coq." % p),
                           "design_ref": info.get("design_ref", "DESIGN.md §4 " + p)},
         "level_note": info.get("note", "Trusted: Coq 8.16.1 kernel, vm_compute; the hand-written model is the code only on the sampled correspondence inputs; fakes for Redis/MongoDB/Zarr; CPython container semantics; json codec."),
-        "technique": info.get("technique", "Coq theorem over Gallina model + differential correspondence (vm_compute) + oracle search on the implementation"),
+        "technique": info.get("technique", "Coq theorem over Gallina model + source translators (generated obligations) + differential correspondence (vm_compute) + oracle search on the implementation"),
     })
 na = [{"property_id": p, "reason": pr.NOT_YET.get(p, "check not built yet in this round; planned (DESIGN.md §4)")} for p in ALL if p not in pr.REGISTRY]
 m = {
@@ -34,7 +34,7 @@ m = {
     "engines": [{"name": "coq-model+correspondence", "path": "/verif/coq", "serves_properties": [c["property_id"] for c in checks],
                  "kind_free_text": "Coq 8.16.1 development (Model/, Proofs/, Props/, Corr/, Gen/) + Python harness driving /repo and emitting case files evaluated by vm_compute"}],
     "checks": checks,
-    "notes": "Machine-checked proof in Coq over a hand-written executable model; correspondence checks tie the model to /repo on every run. See DESIGN.md.",
+    "notes": "Machine-checked proof in Coq over an executable model; translators and correspondence checks tie the model to /repo on every run. See DESIGN.md.",
     "not_applicable": na,
 }
 with open(os.path.join(os.path.dirname(os.path.dirname(os.path.abspath(__file__))), "MANIFEST.json"), "w") as f:
